@@ -1,7 +1,7 @@
 #!/bin/bash
 # usage: tools/run_all.sh [quick|thorough] [Cxx ...]  - run the claimed checks on /repo, validate evidence, summarise
 tier="${1:-quick}"; shift
-cd /verif
+cd "$(cd "$(dirname "$0")/.." && pwd)"
 props="$@"
 if [ -z "$props" ]; then props=$(python3 -c "import json;print(' '.join(c['property_id'] for c in json.load(open('MANIFEST.json'))['checks']))"); fi
 rc_all=0
